@@ -1082,6 +1082,18 @@ class _FakeFuture:
     def done(self):
         return not self.timed_out
 
+    def cancelled(self):
+        return False
+
+    def running(self):
+        return self.timed_out
+
+    def exception(self, timeout=None):
+        if self.timed_out:
+            import concurrent.futures as _cf
+            raise _cf.TimeoutError()
+        return self.exc
+
 
 class _FakeExecutor:
     """Owned replacement for ThreadPoolExecutor inside redress.policy.runner.sync_core."""
